@@ -535,9 +535,22 @@ class Harness:
         self.adopt_results.append({"pid": pid, "by": by, "raised": None, "value_is_none": r is None})
 
     def do_execute(self, pid, by, runner=None):
-        runner = runner or self.runner
         spec = self.specs[pid]
-        fn = self.exec_fn(pid)
+        times = spec.get("times", 1)
+        if times > 1 and not getattr(self, "_in_multi_exec", False):
+            # the very same callable executed several times in a row: every call runs it again
+            self._in_multi_exec = True
+            try:
+                for _ in range(times):
+                    self.do_execute(pid, by, runner)
+            finally:
+                self._in_multi_exec = False
+            return
+        runner = runner or self.runner
+        cache = self.__dict__.setdefault("_exec_fn_cache", {})
+        fn = cache.get(pid)
+        if fn is None:
+            fn = cache[pid] = self.exec_fn(pid)
         args = [make_arg(a) for a in spec.get("args", [])]
         kwargs = {k: make_arg(v) for k, v in spec.get("kwargs", {}).items()}
         self.ev("execute-call", pid, by=by)
